@@ -423,6 +423,21 @@ WITNESSES = [
                                       'length="8026531841">abc</type>',
                                       '<message name="M" id="1"><field name="k" id="1" type="K"/></message>')},
       'argv': garble.DEFAULT_ARGV, 'mutation': 'fixed'}, 'diag', r'unexpected failure: std::(bad_alloc|length_error)'),
+    # one composite in both header roles: each use is validated on its own (a validator that remembers "already
+    # validated" per name, not per role, accepts the second use and the compilers then work on a header that lacks the
+    # element they look up)
+    ('header composite used as dimensionType, then as data type',
+     {'files': {'schema.xml': _schema(
+         GSE + '<composite name="V"><type name="length" primitiveType="uint16"/><type name="varData" primitiveType="uint8" length="0"/></composite>',
+         '<message name="M" id="1"><group name="g" id="2" dimensionType="groupSizeEncoding"><field name="x" id="3" type="uint8"/></group>'
+         '<data name="d" id="4" type="groupSizeEncoding"/></message>')},
+      'argv': garble.DEFAULT_ARGV, 'mutation': 'fixed'}, 'diag', r"data header `groupSizeEncoding` doesn't have required `length` element"),
+    ('header composite used as data type, then as dimensionType',
+     {'files': {'schema.xml': _schema(
+         GSE + '<composite name="V"><type name="length" primitiveType="uint16"/><type name="varData" primitiveType="uint8" length="0"/></composite>',
+         '<message name="M" id="1"><data name="d" id="4" type="V"/></message>'
+         '<message name="N" id="2"><group name="g" id="2" dimensionType="V"><field name="x" id="3" type="uint8"/></group></message>')},
+      'argv': garble.DEFAULT_ARGV, 'mutation': 'fixed'}, 'diag', r"group header `V` doesn't have required `numInGroup` element"),
     ('brace_arg_is_diagnosed', {'files': {'schema.xml': _schema()}, 'argv': ['-{}'], 'mutation': 'fixed'},
      'diag', r'unknown argument: `-\{\}`'),
     ('brace_path_is_diagnosed', {'files': {}, 'argv': ['--output-dir', '{OUT}', 'no{such}.xml'], 'mutation': 'fixed'},
